@@ -229,5 +229,5 @@ def harnesses(world, tier, seed):
                   expected_classes=('auth', 'nonauth')),
     ]
     if not q:
-        hs.append(WholeZone(name='whole-zone-2rec', nrec=2, types=('A',), bounds={'zone': 'as whole-zone', 'records': '2: owner apex or one symbolic 1-octet label, ordinary or wildcard, A, ttl 300 or 7'}, expected_classes=('auth', 'nonauth')))
+        hs.append(WholeZone(name='whole-zone-2rec', hash_orders=False, nrec=2, types=('A',), bounds={'zone': 'as whole-zone', 'records': '2: owner apex or one symbolic 1-octet label, ordinary or wildcard, A, ttl 300 or 7'}, expected_classes=('auth', 'nonauth')))
     return hs, (1500 if q else 5400), None
